@@ -268,8 +268,21 @@ class Functor(pg_object.Object, utils.Functor):
         json_dict.pop(name, None)
     return json_dict
 
+  def _sym_on_silent_change(
+      self, field_updates: Optional[List[base.FieldUpdate]] = None) -> None:
+    """Keeps track of the bound arguments for a change that is not notified."""
+    super()._sym_on_silent_change(field_updates)
+    if field_updates:
+      self._update_bound_args(
+          {update.path - self.sym_path: update for update in field_updates})
+
   def _on_change(self, field_updates: Dict[utils.KeyPath, base.FieldUpdate]):
     """Custom handling field change to update bound args."""
+    self._update_bound_args(field_updates)
+
+  def _update_bound_args(
+      self, field_updates: Dict[utils.KeyPath, base.FieldUpdate]) -> None:
+    """Updates the specified / default bookkeeping of the changed arguments."""
     for relative_path, update in field_updates.items():
       assert relative_path
       if len(relative_path) != 1:
